@@ -23,6 +23,7 @@ func concSend(cf ccfg, kind string, size int, chunk string, ackOK bool) concOp {
 
 // C08: concurrent sends never interleave; with acks each send waits for its own ack alone.
 func C08(c *core.Ctx) {
+	fine := setFine(c)
 	type conf struct {
 		name  string
 		cf    ccfg
@@ -66,7 +67,11 @@ func C08(c *core.Ctx) {
 	for _, cfn := range confs {
 		cf := cfn.cf
 		progs := cfn.progs(cf)
-		n, ex := concExplore(c, "c08", cf, prefix, progs, c.N(400, 20000), cfn.name, func(run concRun, replay map[string]interface{}) {
+		budget := c.N(400, 20000)
+		if fine {
+			budget = c.N(25, 3000)
+		}
+		n, ex := concExplore(c, "c08", cf, prefix, progs, budget, cfn.name, func(run concRun, replay map[string]interface{}) {
 			// (1) the byte stream of the connection is a concatenation of complete encodings,
 			//     every message whose send succeeded appears exactly once
 			var cands [][]byte
